@@ -18,11 +18,13 @@ CONSTANT TraceFile
 Trace == ndJsonDeserialize(TraceFile)
 Files == {"a", "b"}
 
-VARIABLES l, variant, written, mayBeEmpty, exists, lastVer, lastValid
-vars == <<l, variant, written, mayBeEmpty, exists, lastVer, lastValid>>
+VARIABLES l, variant, written, mayBeEmpty, exists, lastVer, lastValid,
+          remVer   \* remVer[f]: the last version of f written before its latest removal was started (0 = never removed)
+vars == <<l, variant, written, mayBeEmpty, exists, lastVer, lastValid, remVer>>
 
 Init == /\ l = 1 /\ variant = "opl" /\ written = [f \in Files |-> {}] /\ mayBeEmpty = [f \in Files |-> TRUE]
         /\ exists = [f \in Files |-> FALSE] /\ lastVer = [f \in Files |-> 0] /\ lastValid = [f \in Files |-> FALSE]
+        /\ remVer = [f \in Files |-> 0]
 Ev(e) == l <= Len(Trace) /\ Trace[l].ev = e /\ l' = l + 1
 E == Trace[l]
 Obs(f) == IF f = "a" THEN E.o_a ELSE E.o_b
@@ -30,13 +32,15 @@ Obs(f) == IF f = "a" THEN E.o_a ELSE E.o_b
 Reset == /\ Ev("reset") /\ variant' = E.variant
          /\ written' = [f \in Files |-> {}] /\ mayBeEmpty' = [f \in Files |-> TRUE]
          /\ exists' = [f \in Files |-> FALSE] /\ lastVer' = [f \in Files |-> 0] /\ lastValid' = [f \in Files |-> FALSE]
+         /\ remVer' = [f \in Files |-> 0]
 Write == /\ Ev("write")
          /\ written' = [written EXCEPT ![E.f] = @ \cup {<<E.v, E.valid>>}]
          /\ exists' = [exists EXCEPT ![E.f] = TRUE] /\ lastVer' = [lastVer EXCEPT ![E.f] = E.v]
          /\ lastValid' = [lastValid EXCEPT ![E.f] = E.valid]
-         /\ UNCHANGED <<variant, mayBeEmpty>>
+         /\ UNCHANGED <<variant, mayBeEmpty, remVer>>
 Remove == /\ Ev("remove")
           /\ exists' = [exists EXCEPT ![E.f] = FALSE] /\ mayBeEmpty' = [mayBeEmpty EXCEPT ![E.f] = TRUE]
+          /\ remVer' = [remVer EXCEPT ![E.f] = lastVer[E.f]]
           /\ UNCHANGED <<variant, written, lastVer, lastValid>>
 ObsOK(f) == LET o == Obs(f) IN
             \/ o = 0 /\ mayBeEmpty[f]
@@ -44,15 +48,17 @@ ObsOK(f) == LET o == Obs(f) IN
             \/ o = 0 /\ variant = "opl" /\ o = 0 /\ FALSE
 Observe == /\ Ev("obs")
            /\ \A f \in Files : ObsOK(f)
-           /\ mayBeEmpty' = [f \in Files |-> IF Obs(f) > 0 THEN FALSE ELSE mayBeEmpty[f]]
-           /\ UNCHANGED <<variant, written, exists, lastVer, lastValid>>
+           \* a version written before the removal was started may still be shown while the removal is on its way:
+           \* only a version written after it proves that the removal has been processed
+           /\ mayBeEmpty' = [f \in Files |-> IF Obs(f) > remVer[f] THEN FALSE ELSE mayBeEmpty[f]]
+           /\ UNCHANGED <<variant, written, exists, lastVer, lastValid, remVer>>
 AllValid == \A f \in Files : ~exists[f] \/ lastValid[f]
 FinalOK(f) == LET o == Obs(f) IN
               /\ (o = 0 /\ mayBeEmpty[f]) \/ (o > 0 /\ <<o, TRUE>> \in written[f]) \/ (o = 0 /\ ~exists[f])
               /\ (exists[f] /\ lastValid[f] /\ (variant # "opl" \/ AllValid)) => o = lastVer[f]
               /\ (~exists[f] /\ (variant # "opl" \/ AllValid)) => o = 0
 Final == /\ Ev("final") /\ \A f \in Files : FinalOK(f)
-         /\ UNCHANGED <<variant, written, mayBeEmpty, exists, lastVer, lastValid>>
+         /\ UNCHANGED <<variant, written, mayBeEmpty, exists, lastVer, lastValid, remVer>>
 Next == Reset \/ Write \/ Remove \/ Observe \/ Final
 Spec == Init /\ [][Next]_vars
 Accepted == TLCGet("stats").diameter - 1 = Len(Trace)
